@@ -124,7 +124,7 @@ pub fn limited_strategy(tier: Tier) -> BoxedStrategy<MultiCase> {
                 all.extend(std::iter::repeat(MOp::Tick(0)).take(22));
             }
             all.extend(ops);
-            MultiCase { rows: 80, cols, hz: Some(hz), step_ms, ops: all, final_drops: vec![] }
+            MultiCase { rows: 80, cols: cols as u16, hz: Some(hz), step_ms, ops: all, final_drops: vec![] }
         })
         .boxed()
 }
@@ -132,8 +132,16 @@ pub fn limited_strategy(tier: Tier) -> BoxedStrategy<MultiCase> {
 pub fn history_strategy(tier: Tier) -> BoxedStrategy<MultiCase> {
     let n = tier.pick(30, 50);
     (16u8..=40)
-        .prop_flat_map(move |cols| (Just(cols), proptest::collection::vec(mop_strategy(cols as usize, false), 0..n)))
-        .prop_map(|(cols, ops)| MultiCase { rows: 80, cols, hz: None, step_ms: 2, ops, final_drops: vec![] })
+        .prop_flat_map(move |cols| (Just(cols), proptest::collection::vec(mop_strategy(cols as usize, false), 0..n), proptest::collection::vec((any::<u16>(), any::<u16>()), 0..2)))
+        .prop_map(|(cols, mut ops, detaches)| {
+            // a member that is given another draw target leaves the MultiProgress like a removed one
+            // (its slot stays listed but empty): set_draw_target(hidden) on a generated member
+            for (pos, sel) in detaches {
+                let at = crate::hist::pick(pos, ops.len() + 1);
+                ops.insert(at, MOp::Detach(sel));
+            }
+            MultiCase { rows: 80, cols: cols as u16, hz: None, step_ms: 2, ops, final_drops: vec![] }
+        })
         .boxed()
 }
 
@@ -256,7 +264,7 @@ pub fn property() -> Property {
             "after println/clear/suspend/remove a retained block of a visibly finished, dropped bar may be present (in place) or absent; until then it must be present",
             "bottom alignment may leave up to (largest frame height so far - current frame height) blank rows between log and frame",
             "positional inserts are generated only while no dropped-but-still-listed bar exists (the documentation does not say whether those count)",
-            "set_move_cursor and set_draw_target are outside the quantifier",
+            "set_move_cursor is outside the quantifier (documented as unusable when the number of bars changes); set_draw_target on a member is generated only in the form set_draw_target(hidden), which makes the bar leave the MultiProgress",
             "thread part: real OS threads, frames recorded by the terminal; the schedule-controlled variant is part of the C08 harness",
         ],
         parts: vec![
